@@ -27,13 +27,42 @@ def configure_env():
 _installed = False
 
 
+def _quiet_imports():
+    """Import jax + rex with fd 2 pointed at /dev/null: this image prints NumPy-ABI and CUDA-plugin noise on import."""
+    if os.environ.get("SIMREX_VERBOSE_IMPORT") == "1":
+        return
+    import warnings
+
+    warnings.filterwarnings("ignore")
+    saved = os.dup(2)
+    devnull = os.open(os.devnull, os.O_WRONLY)
+    try:
+        sys.stderr.flush()
+        os.dup2(devnull, 2)
+        try:
+            import jax
+
+            jax.devices()
+            import rex.asynchronous  # noqa
+            import rex.graph  # noqa
+        except Exception:
+            pass
+    finally:
+        sys.stderr.flush()
+        os.dup2(saved, 2)
+        os.close(saved)
+        os.close(devnull)
+
+
 def install():
     global _installed
     if os.environ.get("REX_VERIF") != "1":
         raise km.HarnessError("REX_VERIF=1 is required to install the simulation seams")
-    import warnings
+    if _installed:
+        import rex.asynchronous as ra
 
-    warnings.filterwarnings("ignore")
+        return ra
+    _quiet_imports()
     import rex.asynchronous as ra
 
     src = os.path.realpath(ra.__file__)
